@@ -536,6 +536,7 @@ PROPS["C17"] = dict(
 
 _c20 = [
     dict(MIGRATE, harness="VerifHarness_C20_dir", reach=["compared"]),
+    dict(MIGRATE, harness="VerifHarness_C20_format2", reach=["compared"]),
     dict(_my, harness="VerifHarness_C20_mysql", reach=["compared"]),
     dict(_my, harness="VerifHarness_C20_mysql_scope", reach=["compared"]),
     dict(_pg, harness="VerifHarness_C20_postgres", reach=["compared"]),
